@@ -3,11 +3,13 @@ package c04
 import (
 	"fmt"
 	"strings"
+	"sync"
 	"testing"
 
 	"pgregory.net/rapid"
 
 	"verif/gen"
+	"verif/pairs"
 	"verif/pk"
 	"verif/px"
 	"verif/sb"
@@ -126,4 +128,54 @@ func TestDiff(t *testing.T) {
 		}
 		pk.Judge(rt, c, checkDiff(c))
 	})
+}
+
+// The cross-product programs of verif/pairs that the analyzer accepts: both backends must agree on them as
+// well. The random generator only combines operators and operands its own type rules allow; an operator /
+// operand pair that just one backend mishandles is reached here.
+func TestTablePairsDiff(t *testing.T) {
+	pk.SkipIfReplay(t)
+	col := pk.NewCollector()
+	progs := pairs.Programs()
+	var wg sync.WaitGroup
+	sem := make(chan struct{}, 16)
+	for i := range progs {
+		if !pk.Mine(i) {
+			continue
+		}
+		wg.Add(1)
+		sem <- struct{}{}
+		go func(i int) {
+			defer wg.Done()
+			defer func() { <-sem }()
+			c := px.ProgCase{Modules: map[string]string{"main": progs[i].Text}, Entry: "main", Limits: sb.DefaultLimits(), Note: progs[i].Kind}
+			pk.Eval()
+			resp := px.Pool().Exec(&sb.Request{Op: "analyze", Modules: c.Modules, Entry: "main"})
+			if resp == nil || resp.Crash != "" || resp.Hang || !resp.Accepted {
+				return
+			}
+			if strings.Contains(progs[i].Text, "import trigger") || strings.Contains(progs[i].Text, "import templ") {
+				pk.Class("pairs-outside-shared-language(triggers, templates)") // the interpreter's host has neither
+				return
+			}
+			pk.Class(progs[i].Kind)
+			pk.NonTrivial(progs[i].Text, map[string]any{"program": progs[i].Text})
+			f := checkDiff(c)
+			if f != nil && (strings.HasPrefix(f.Sig, "crash:") || strings.HasPrefix(f.Sig, "hang")) {
+				pk.Class("pairs-crash-left-to-C02") // C02 runs the same table and judges crashes
+				return
+			}
+			if f != nil && strings.Contains(f.Msg, "vm=init-panic") {
+				pk.Class("pairs-init-panic-left-to-C02") // NewVM cannot report a failing initialiser (open finding C02-009)
+				return
+			}
+			if f != nil {
+				f.Sig = f.Sig + " [" + progs[i].Kind + "]"
+			}
+			col.Report(c, f)
+		}(i)
+	}
+	wg.Wait()
+	pk.Exhaustive("pairs-accepted-diff")
+	col.Done(t)
 }
